@@ -1,12 +1,13 @@
 #!/bin/sh
-# tools/adopt_seed.sh CNN k [extra checks]   - confirm /tmp/seed-CNN/out/k with try_seed.py and keep it as seeded/CNN-k
+# tools/adopt_seed.sh CNN k [extra checks]   - confirm /tmp/seed${ROUND}-CNN/out/k with try_seed.py and keep it as seeded/CNN[-r$ROUND]-k
+# (ROUND env: empty for the first round, 2 for the second ...)
 P=$1; K=$2; shift 2
-SRC=/tmp/seed-$P/out/$K
+SRC=/tmp/seed${ROUND}-$P/out/$K
 [ -f $SRC/patch.diff ] || { echo "no $SRC/patch.diff"; exit 2; }
 CHECKS=$P; for c in "$@"; do CHECKS="$CHECKS,$c"; done
 OUT=$(/venv/bin/python tools/try_seed.py $SRC --checks $CHECKS | tail -1)
 echo "$OUT"
-DST=seeded/$P-$K
+if [ -n "$ROUND" ]; then DST=seeded/$P-r$ROUND-$K; else DST=seeded/$P-$K; fi
 mkdir -p $DST && cp $SRC/patch.diff $SRC/demo.py $DST/ 2>/dev/null
 python3 - "$SRC" "$DST" "$OUT" <<'PY'
 import json,sys
